@@ -49,7 +49,7 @@ func c07Matches(spelling, code string) bool {
 }
 
 const c07Src = `//«c0»
-package d
+package d //«c15»
 
 import "fmt"
 
@@ -84,7 +84,16 @@ func B() {
 	//«c9»
 	var q int // B-VAR
 	_, _ = z, q
-} // B-END
+	for { //«c13»
+		z++ // B-LOOP-FIRST
+		break
+	}
+}
+
+var ( //«c14»
+	g1 = 1 // G-FIRST
+	g2 = 2
+) // B-END
 `
 
 type c07Scope struct {
@@ -109,8 +118,8 @@ func c07Scopes(spellAt int) { c07ScopesN(spellAt, 2) }
 
 func c07ScopesN(spellAt int, maxActive int) {
 	holes := []nd.Hole{}
-	sp := make([]string, 13)
-	names := []string{"c0", "c1", "c2", "c3", "c4", "c5", "c6", "c7", "c8", "c9", "c10", "c11", "c12"}
+	sp := make([]string, 16)
+	names := []string{"c0", "c1", "c2", "c3", "c4", "c5", "c6", "c7", "c8", "c9", "c10", "c11", "c12", "c13", "c14", "c15"}
 	active := 0
 	for i, n := range names {
 		switch {
@@ -135,7 +144,7 @@ func c07ScopesN(spellAt int, maxActive int) {
 	off := func(needle string) int { return nd.OffsetOf(c07Src, holes, needle) }
 	width := len(sp[0]) + 2 // "//" + padded spelling
 	lineStart := func(needle string) int { return nd.LineStartOf(c07Src, holes, needle) }
-	fileEnd := off("} // B-END") + 1
+	fileEnd := off(") // B-END") + 1
 	scopes := []c07Scope{
 		{sp[0], off("//«c0»"), fileEnd},                              // before the package clause: whole file
 		{sp[1], off("//«c1»"), off("} // A-END") + 1},                // alone before a declaration: the whole declaration
@@ -150,6 +159,9 @@ func c07ScopesN(spellAt int, maxActive int) {
 		{sp[10], lineStart("//«c10»"), off("//«c10»") + width},       // trailing a line that only closes a block: its own line
 		{sp[11], lineStart("//«c11»"), off("//«c11»") + width},       // trailing the LAST line of a multi-line statement: that line only
 		{sp[12], lineStart("//«c12»"), off("//«c12»") + width},       // trailing a one-line package-level declaration: its own line
+		{sp[13], lineStart("//«c13»"), off("//«c13»") + width},       // trailing a line that only OPENS a construct (for {): its own line
+		{sp[14], lineStart("//«c14»"), off("//«c14»") + width},       // trailing "var (": its own line
+		{sp[15], lineStart("//«c15»"), off("//«c15»") + width},       // trailing the package clause: its own line
 	}
 	code := nd.Enum("q_code", "IMM01", "IMM02", "CTOR02", "CTOR01", "TONL01", "PKGO03", "IMPL02")
 	qoff := nd.Int("q_offset")
